@@ -288,7 +288,9 @@ def build3(ck, T, rules_only=False):
     # ------------------------------------------------------------------ MoveAxisOperator.__init__
     def moveaxis_init(S):
         S.oracle = {'name': 'moveaxis'}
-        x = ST.LeafV(z3.Const('xin', ST.Leaf))
+        leaves = leaf_seq(S, 'leaves')
+        struct = ST.StructV(leaves)
+        S.assume(to_z3(leaves.length) >= 1)
         args = []
         expect = []
         for nm in ('source', 'destination'):
@@ -305,16 +307,24 @@ def build3(ck, T, rules_only=False):
                 v = S.seq(nm, kind='list')
                 args.append(B.PyList(None, seq=v))
                 expect.append(v)
+        # legal arguments: every axis addresses an existing dimension of every leaf
+        for e in expect:
+            S.assume(leaves.forall(lambda k, lf: z_and(lf.wf(), e.forall(lambda j, a: in_range(to_z3(a), lf)))))
         o = Obj(P.cls('MoveAxisOperator'))
-        out = S.call(S.func(f'{AX}.MoveAxisOperator.__init__'), [o] + args, {'in_structure': x})
+        out = S.call(S.func(f'{AX}.MoveAxisOperator.__init__'), [o] + args, {'in_structure': struct})
         if not out.normal:
             S.oblige('exc', False, tag=f'no-exception-{out.value.name}')
             return
         for nm, e in zip(('source', 'destination'), expect):
             got = o.fields.get(nm)
-            S.oblige('post', z_and(B._isinstance(S.I, got, B.BUILTINS['tuple']), B.as_seq(S.I, got).eq(
-                SSeq(e.length, e.get, 'tuple'))), tag=f'{nm}-stored-as-tuple')
-        S.oblige('post', o.fields.get('_in_structure') is x, tag='structure-stored')
+            gs = B.as_seq(S.I, got)
+            S.oblige('post', B._isinstance(S.I, got, B.BUILTINS['tuple']), tag=f'{nm}-stored-as-a-tuple')
+            S.oblige('post', z_eq(gs.length, e.length), tag=f'{nm}-same-number-of-axes')
+            # the stored axes address, on EVERY leaf, the dimensions the caller named (numpy semantics of negative axes)
+            S.oblige('post', leaves.forall(lambda k, lf: gs.forall(lambda j, a: z_and(
+                in_range(to_z3(a), lf), norm(to_z3(a), ST.f_ndim(lf.term)) == norm(to_z3(e.get(j)), ST.f_ndim(lf.term))))),
+                tag=f'{nm}-axes-address-the-named-dimensions-of-every-leaf')
+        S.oblige('post', o.fields.get('_in_structure') is struct, tag='structure-stored')
     if not rules_only:
         ck.explore(f'{AX}.MoveAxisOperator.__init__', moveaxis_init, T)
 
